@@ -76,7 +76,35 @@ func ownOp(tr *TypeRole, c ssa.CallInstruction) bool {
 			return true
 		}
 	}
-	return false
+	return recordsItself(tr, c)
+}
+
+// recordsItself: the callee is a method of the same receiver every one of whose returns hands back nil or the
+// sticky field it has just stored (a helper such as writeHeader() that keeps the failure in z.err itself).
+func recordsItself(tr *TypeRole, c ssa.CallInstruction) bool {
+	f := c.Common().StaticCallee()
+	if f == nil || f.Blocks == nil || f.Signature.Recv() == nil || derefNamed(f.Signature.Recv().Type()) != tr.Named || tr.Sticky == "" {
+		return false
+	}
+	n := 0
+	for _, b := range f.Blocks {
+		for _, in := range b.Instrs {
+			ret, ok := in.(*ssa.Return)
+			if !ok {
+				continue
+			}
+			e := returnErr(ret)
+			if e == nil {
+				return false
+			}
+			n++
+			if isNil(e) || isStickyLoad(e, f.Params[0], tr.Sticky) {
+				continue
+			}
+			return false
+		}
+	}
+	return n > 0
 }
 
 func isStdFlateWriterCall(c ssa.CallInstruction) bool {
@@ -144,9 +172,11 @@ func ruleR14_1(p *Program, r *Report) {
 				}
 				if recorded {
 					r.OK("R14.1", key, p.InstrPos(c), desc)
-				} else if isStdFlateWriterCall(c) && returned {
-					r.OK("R14.1", key, p.InstrPos(c), desc+" [delegation to compress/flate.Writer, which keeps its own sticky error; error is returned]")
 				} else {
+					// (a delegated call into compress/flate.Writer used to be accepted here on the belief that the
+					// standard Writer latches every failure itself; it does not - a failure of the final writes of its
+					// Close is returned but not latched - see DESIGN.md section 6 #19)
+					_ = returned
 					why := "the error value never reaches a store to the sticky field"
 					if len(evs) == 0 {
 						why = "the error result is discarded"
@@ -237,6 +267,18 @@ func ruleR14_3(p *Program, r *Report) {
 				continue
 			}
 			desc := "error of destination call (" + what + ") reaches a return or a sticky store"
+			if fn.Signature.Recv() != nil {
+				var own *TypeRole
+				for _, tr := range p.WriterTypes() {
+					if tr.Named == derefNamed(fn.Signature.Recv().Type()) {
+						own = tr
+					}
+				}
+				if own != nil && len(c.Common().Args) > 0 && c.Common().Args[0] == ssa.Value(fn.Params[0]) && ownOp(own, c) {
+					r.OK("R14.3", key, p.InstrPos(c), desc+" [own operation of the same Writer: it records its failure in the sticky field itself]")
+					continue
+				}
+			}
 			good := false
 			for _, ev := range errorResults(c) {
 				fl := p.flowForward(ev)
